@@ -46,7 +46,7 @@ fn body(file_level_using: bool) -> (String, Vec<i32>, Vec<i32>, Vec<i32>) {
         ((if file_level_using { "using SafeMath for uint256;" } else { "library Unrelated {}" }).into(), ""),
         ("contract Gated {".into(), ""),
         ((if file_level_using { "    uint256 filler;" } else { "    using SafeMath for uint256;" }).into(), ""),
-        ("    uint256 total;".into(), ""),
+        ("    uint256 total = uint256(7).add(1);".into(), "S"),
         ("    function f(uint256 a, uint256 b) public {".into(), ""),
         ("        total = a.add(b);".into(), "S"),
         ("        total = a.sub(b);".into(), "S"),
